@@ -17,8 +17,10 @@ structure Token where
   kid : Option String           -- protected header "kid" when it is a string
   algRS256 : Bool               -- protected header "alg" is RS256
   sigOK : Nat → Bool            -- signature verifies under key (keys are numbered)
-  exp : Option Int              -- seconds
+  exp : Option Int              -- seconds (a NumericDate)
   nbf : Option Int
+  expMalformed : Bool := false  -- the claim is there and is not a NumericDate a time can hold (a string, 1e19, …)
+  nbfMalformed : Bool := false
 
 structure Cfg where
   issuer : String
@@ -40,7 +42,8 @@ def valid (cfg : Cfg) (ks : KeySet) (ihHex : String) (now : Int) (t : Token) : B
      | none => false
      | some k => t.algRS256 && t.sigOK k) &&
   (match t.exp with | none => true | some e => decide (now ≤ e)) &&
-  (match t.nbf with | none => true | some n => decide (n ≤ now))
+  (match t.nbf with | none => true | some n => decide (n ≤ now)) &&
+  !t.expMalformed && !t.nbfMalformed        -- D35: such a token has no validity period to be within
 
 inductive Verdict where
   | accept
